@@ -19,12 +19,13 @@ CONSTVAL = {}  # vid -> int       (vids that are literally constant)
 GRANGE = {}    # vid -> (lo, hi)  global range (type range / entry precondition / digit bounds)
 NAME = {}      # vid -> str       (symbols)
 USERS = {}     # vid -> list of vids whose term mentions it
+AFF_INDEX = {} # Aff.key() -> list of vids having exactly that affine form
 
 
 def reset():
     global _next_vid
     _next_vid = itertools.count(1)
-    for t in (TERM, CONS, AFF, CONSTVAL, GRANGE, NAME, USERS):
+    for t in (TERM, CONS, AFF, CONSTVAL, GRANGE, NAME, USERS, AFF_INDEX):
         t.clear()
 
 
@@ -259,6 +260,8 @@ def term_vid(st, term, lo, hi, aff=None):
         TERM[v] = term
         if aff is not None:
             AFF[v] = aff
+            if len(aff.co) > 1 and not aff.mod:
+                AFF_INDEX.setdefault(aff.key(), []).append(v)
         if term[0] != 'const':
             for o in term[1:]:
                 if isinstance(o, int):
@@ -607,6 +610,11 @@ def eval_aff(st, a, depth=3):
     if a is None or a.mod:
         return None
     lo, hi = _eval_direct(st, a)
+    if len(a.co) > 1:
+        for v in AFF_INDEX.get(a.key(), ()):
+            r = st.iv.get(v)
+            if r is not None:
+                lo, hi = max(lo, r[0]), min(hi, r[1])
     for (g, glo, ghi) in st.lin:
         d = aff_add(a, g, -1)
         if d is not None and not d.co and not d.mod:
@@ -646,7 +654,19 @@ def divmod_vids(st, x, c):
     else:
         q = r = None
         cv = const_vid(c)
+        tx = TERM.get(x)
+        if tx is not None and tx[0] == 'Neg':
+            # truncating division is odd: (-y)/c = -(y/c), (-y)%c = -(y%c)
+            qy, ry = divmod_vids(st, tx[1], c)
+            q = new_vid(); r = new_vid()
+            TERM[q] = ('Div', x, cv); TERM[r] = ('Rem', x, cv)
+            AFF[q] = aff_scale(aff_of(qy), -1)
+            AFF[r] = aff_scale(aff_of(ry), -1)
+            USERS.setdefault(qy, []).append(q)
+            USERS.setdefault(ry, []).append(r)
         for (x1, c1, q1, r1) in list(TRIPLES.get(x, ())):
+            if q is not None:
+                break
             if x1 != x or c1 == c:
                 continue
             if c % c1 == 0:
@@ -675,11 +695,6 @@ def divmod_vids(st, x, c):
             TERM[q] = ('Div', x, cv)
             TERM[r] = ('Rem', x, cv)
             USERS.setdefault(x, []).extend([q, r])
-            ax = aff_of(x)
-            if ax.mod or len(ax.co) > 1:
-                m = aff_modulo(ax, c)
-                if m is not None:
-                    AFF[r] = m
         CONS.setdefault(('Div', x, cv), q)
         CONS.setdefault(('Rem', x, cv), r)
         _reg_triple(x, c, q, r)
@@ -735,7 +750,90 @@ _propagate0 = _propagate
 def _propagate(st, vid, depth):  # noqa: F811
     if not _propagate0(st, vid, depth):
         return False
+    a = AFF.get(vid)
+    if a is not None and not a.mod and len(a.co) == 1 and vid not in a.co and depth <= 10:
+        # vid == c*y + b with c = +/-1: the atom's interval follows from vid's
+        (y, c), = a.co.items()
+        if c in (1, -1) and y not in CONSTVAL:
+            lo, hi = get_iv(st, vid)
+            nl, nh = ((lo - a.c0), (hi - a.c0)) if c == 1 else ((a.c0 - hi), (a.c0 - lo))
+            ol, oh = get_iv(st, y)
+            l2, h2 = max(nl, ol), min(nh, oh)
+            if l2 > h2:
+                return False
+            if (l2, h2) != (ol, oh):
+                st.iv[y] = (l2, h2)
+                if not _propagate(st, y, depth + 1):
+                    return False
     if vid in TRIPLES and depth <= 10:
         if not _enforce_triples(st, vid, depth):
             return False
     return True
+
+
+def aff_concretize(st, f):
+    """replace atoms whose interval in `st` is a single value by that value"""
+    if f is None:
+        return None
+    co = {}
+    c0 = f.c0
+    for v, c in f.co.items():
+        lo, hi = get_iv(st, v)
+        if lo == hi:
+            c0 += c * lo
+        else:
+            co[v] = c
+    return Aff(co, c0, f.mod).norm()
+
+
+def aff_equiv(f1, f2, m=0, depth=6, st=None):
+    """is f1 == f2 (m == 0) or f1 == f2 (mod m) provable, using the div/mod triples as exact identities
+    (and, when a state is given, the atoms that are constant in it)?"""
+    if f1 is None or f2 is None:
+        return False
+    d = aff_add(f1, f2, -1)
+    if d is None:
+        return False
+    return _to_zero(d, m, depth, set(), st)
+
+
+def _is_zero(d, m):
+    if d.mod:
+        if not m or d.mod % m:
+            return False
+    if m:
+        return all(c % m == 0 for c in d.co.values()) and d.c0 % m == 0
+    return not d.co and d.c0 == 0
+
+
+def _to_zero(d, m, depth, seen, st=None):
+    if st is not None:
+        d = aff_concretize(st, d)
+    if _is_zero(d, m):
+        return True
+    k = d.key()
+    if depth == 0 or k in seen or len(seen) > 400:
+        return False
+    seen.add(k)
+    for v, coef in list(d.co.items()):
+        for (x, c, q, r) in TRIPLES.get(v, ()):
+            ax = aff_of(x)
+            if ax.mod:
+                continue
+            rest = dict(d.co)
+            del rest[v]
+            base = Aff(rest, d.c0, d.mod)
+            cands = []
+            if q == v and v not in AFF and coef % c == 0:
+                # c*q = x - r
+                cands.append(aff_add(base, aff_add(ax, aff_of(r), -1), coef // c))
+            if r == v and v not in AFF:
+                # r = x - c*q
+                cands.append(aff_add(base, aff_add(ax, aff_scale(aff_of(q), c), -1), coef))
+            if x == v and v not in AFF:
+                # x = c*q + r
+                cands.append(aff_add(base, aff_add(aff_scale(aff_of(q), c), aff_of(r)), coef))
+            for cand in cands:
+                if cand is not None and _to_zero(cand, m, depth - 1, seen, st):
+                    return True
+    return False
